@@ -142,13 +142,13 @@ def impl_build(flavour="plain"):
     return build_cpp.build(flavour)
 
 
-def impl_run(exe, mode, infile, outfile, extra=(), timeout=600, env=None):
+def impl_run(exe, mode, infile, outfile, extra=(), timeout=600, env=None, prefix=()):
     e = dict(os.environ)
     e["ASAN_OPTIONS"] = "exitcode=99:detect_leaks=0:abort_on_error=0:allocator_may_return_null=1"
     e["UBSAN_OPTIONS"] = "halt_on_error=1:exitcode=98:print_stacktrace=0"
     if env:
         e.update(env)
-    return sh([exe, mode, infile, outfile] + list(extra), timeout=timeout, env=e)
+    return sh(list(prefix) + [exe, mode, infile, outfile] + list(extra), timeout=timeout, env=e)
 
 
 # ---------------------------------------------------------------------------
@@ -184,13 +184,14 @@ def write_blocks(path, scripts):
 
 
 UB_RE = re.compile(r"^L t=-?\d+ 9 ")
+DIAG_RE = re.compile(r"^L t=-?\d+ 8 ")
 
 
 def first_diff(a, b):
     """a = model trace, b = implementation trace.  A model line with tag 9 says: here the C++ has
     no defined behaviour (null/dangling dereference ...); the implementation crashing at exactly
     that point is agreement about WHERE things go wrong (it is still a failure of the property)."""
-    a = [l for l in a if not l.startswith("Z ")]
+    a = [l for l in a if not l.startswith("Z ") and not DIAG_RE.match(l)]
     for i in range(max(len(a), len(b))):
         x = a[i] if i < len(a) else "<end of trace>"
         y = b[i] if i < len(b) else "<end of trace>"
@@ -239,6 +240,22 @@ class Runner:
             except OSError:
                 pass
         return m, i
+
+    def run_impl_only(self, scripts, env=None, extra=(), prefix=(), timeout=240):
+        self.n += 1
+        base = os.path.join(self.work, "e%d_%d" % (os.getpid(), self.n))
+        inf, io = base + ".in", base + ".impl"
+        write_blocks(inf, scripts)
+        rc, out, err = impl_run(self.exe, self.mode, inf, io, list(self.impl_extra) + list(extra), timeout=timeout, env=env, prefix=prefix)
+        if rc != 0:
+            raise RuntimeError("C++ driver failed (rc=%d): %s" % (rc, (out + err)[-2000:]))
+        i, _ = parse_blocks(io)
+        for f in (inf, io):
+            try:
+                os.remove(f)
+            except OSError:
+                pass
+        return i
 
     def run_chunked(self, scripts, chunk=400, **kw):
         m, i = {}, {}
